@@ -15,6 +15,7 @@ EXPLANATION = (
     "alteration is detected is NOT decided (collision resistance assumed)."
     ' Round 2: for every gate row the rejection RELATION (==, !=, <, ..) is the confirmed one and no new value test decides whether the gate runs (guard strength).'
     ' A validation loop driven by `zip` is accompanied by a comparison of the two lengths.'
+    ' Round 4: a validation function of the gate table does not narrow the sequence it validates by a computed amount (skip(n)/take(n)/[n..]/split_at(n)): the elements outside the window would be accepted unexamined.'
 )
 ASSUMPTIONS = ["BLAKE3 collision resistance", "the patch digest coverage is decided in C04.R4"]
 FLOOR = 70
